@@ -12,7 +12,10 @@ Three parts:
   pattern obeys the escape grammar of the W3C recommendation, the one-facet schema loads in XSD 1.0
   and 1.1 mode, and every sampled XML string without line breaks that Python's ``re`` accepts is
   accepted by the facet; per meta-model, ``schema.xsd`` loads in both modes and the XML documents
-  the generated SDK writes for invariant-satisfying instances validate.
+  the generated SDK writes for invariant-satisfying instances validate.  Before the random models: the
+  enumerated boundary families of ``c14_models`` (list sizes and string lengths over
+  {0, 1, 2, 9, 10, 11, 99, 100}, values with 2-3 patterns) with designed valid instances whose
+  constrained values sit at the minimum, strictly between and at the maximum.
 """
 from __future__ import annotations
 
@@ -910,6 +913,42 @@ def plant_patterns(ctx: Ctx, m: Any) -> None:
             m.verification_functions[k] = mm.PatternFn(name=fn.name, parts=(ctx.rng.choice(MODEL_PATTERNS),), arg=fn.arg, description=fn.description, style="plain")
 
 
+#: maxima planted on random lists / strings: the neighbours of the powers of ten (their decimal spelling sorts
+#: before that of a smaller minimum) next to the small ones
+PLANTED_MAXIMA = [0, 1, 2, 3, 9, 10, 11, 12, 25, 99, 100, 101]
+
+
+def plant_bounds(ctx: Ctx, m: Any) -> int:
+    """
+    Give lists and strings that no invariant mentions yet a window ``lo <= len <= hi`` (two invariants, guarded for
+    optional properties) with lo in 0..2 — so that ``mm.random_instance`` still builds them — and hi from
+    PLANTED_MAXIMA.  Returns how many were planted.
+    """
+    from harness import mm
+
+    planted = 0
+    for c in m.classes:
+        if c.impl_specific:
+            continue
+        mentioned = {node.name for inv in c.invariants for node in mm.walk_expr(inv.expr) if isinstance(node, mm.Member) and node.instance == mm.SELF}
+        for p in c.props:
+            t = mm.beneath_optional(p.type)
+            if p.name in mentioned or not (isinstance(t, mm.ListOf) or t == mm.Prim("str")) or ctx.rng.random() < 0.4:
+                continue
+            lo = ctx.rng.choice([None, 0, 1, 2, 2])
+            hi = ctx.rng.choice([None] + [h for h in PLANTED_MAXIMA if h >= (lo or 0)])
+            subject = mm.prop(p.name)
+            for bound, op in ((lo, ">="), (hi, "<=")):
+                if bound is None:
+                    continue
+                body: Any = mm.Comparison(mm.length(subject), op, mm.Constant(bound))
+                if mm.is_optional(p.type):
+                    body = mm.Or((mm.IsNone(subject), body))
+                c.invariants.append(mm.Invariant(f"{p.name} has a planted bound {op} {bound}.", body))
+                planted += 1
+    return planted
+
+
 def models(ctx: Ctx, n: int) -> Iterator[Tuple[Any, str]]:
     from harness import mm
 
@@ -927,7 +966,10 @@ def models(ctx: Ctx, n: int) -> Iterator[Tuple[Any, str]]:
             ft.nested_lists = True
         m = mm.random_mm(ctx.rng, size=ctx.rng.choice([2, 3, 4, 5]), features=ft)
         plant_patterns(ctx, m)
-        yield m, "random-mm"
+        if i % 2 == 1 and plant_bounds(ctx, m) > 0:
+            yield m, "random-mm-planted-bounds"
+        else:
+            yield m, "random-mm"
 
 
 def single_pattern_model(p: str) -> Any:
@@ -996,6 +1038,18 @@ def model_stage(ctx: Ctx, n: int, mutants: bool = False) -> None:
                 pass
 
 
+def _schemas_load(ctx: Ctx, b: Built) -> bool:
+    """The first half of C13: ``schema.xsd`` is a valid XSD 1.0 and 1.1 document."""
+    ctx.hit("schema-generated")
+    loaded = True
+    for ver in ("1.0", "1.1"):
+        s = b.schemas[ver]
+        if isinstance(s, str):
+            loaded = False
+            ctx.fail({"model": b.source}, f"schema.xsd is not a valid XSD {ver} document: {s}", "C13:schema-invalid:" + s.split(":")[0] + ":" + _schema_error_class(s))
+    return loaded
+
+
 def judge_model(ctx: Ctx, b: Built, stream: str, mutants: bool) -> None:
     from harness import mm
 
@@ -1009,14 +1063,7 @@ def judge_model(ctx: Ctx, b: Built, stream: str, mutants: bool) -> None:
         if b.error.startswith("xsd:"):
             ctx.hit("xsd-error:" + ("greenery" if "greenery" in b.error else "non-xml" if "not allowed in XML" in b.error else "other"))
         return
-    ctx.hit("schema-generated")
-    loaded = True
-    for ver in ("1.0", "1.1"):
-        s = b.schemas[ver]
-        if isinstance(s, str):
-            loaded = False
-            ctx.fail(inp, f"schema.xsd is not a valid XSD {ver} document: {s}", "C13:schema-invalid:" + s.split(":")[0] + ":" + _schema_error_class(s))
-    if not loaded or b.sdk is None:
+    if not _schemas_load(ctx, b) or b.sdk is None:
         return
     concrete = [c.name for c in b.mm.classes if not c.abstract and not c.impl_specific]
     per_class = 3 if ctx.tier == "quick" else 8
@@ -1051,6 +1098,190 @@ def judge_model(ctx: Ctx, b: Built, stream: str, mutants: bool) -> None:
                 from harness.props import c14
 
                 c14.judge_mutants(ctx, b, cname, built.instance, xml_text)
+
+
+# --------------------------------------------------------------------------- enumerated boundary models (designed constraints)
+
+
+def built_family(ctx: Ctx, fam: Any) -> Built:
+    """One build (XSD, both schema versions, SDK) per enumerated family and run; shared by the facet and the document stage."""
+    cache = ctx.__dict__.setdefault("_c13_families", {})
+    if fam.name not in cache:
+        cache[fam.name] = build_model(ctx, fam.mm)
+    return cache[fam.name]
+
+
+def _write(ctx: Ctx, b: Built, fam: Any, var: Any, expect_valid: bool) -> Optional[str]:
+    """The SDK-written document of a designed instance, after the independent invariant oracle confirmed the design."""
+    from harness import mm
+    from harness.props import c14_models
+
+    try:
+        inst = c14_models.realize(b.sdk, (var.cls, var.plan))
+        checks = mm.check_invariants(fam.mm, b.sdk, inst)
+        holds = all(c.holds for c in checks)
+        if holds != expect_valid or any(mm.is_exception(c.result) for c in checks):
+            ctx.hit("enumerated-design-rejected-by-invariant-oracle")
+            ctx.note(f"c14_models: {fam.name} {var.cls} {var.kind}: the invariant oracle says holds={holds}, designed {expect_valid}")
+            return None
+        if expect_valid and list(b.sdk.verification.verify(inst)):
+            ctx.hit("sdk-verification-disagrees-with-instance-builder")
+            return None
+        return b.sdk.to_xml_str(inst)
+    except BaseException as e:  # noqa
+        ctx.hit("enumerated-sdk-raised:" + type(e).__name__)
+        return None
+
+
+def _reduced_failure(ctx: Ctx, fam: Any, var: Any, expect_valid: bool) -> Optional[Tuple[str, str]]:
+    """(source, document) of the same designed instance in the family cut down to its class, if it fails there the same way."""
+    from harness.props import c14_models
+
+    budget = ctx.__dict__.setdefault("_c13_reductions", [6])
+    if budget[0] <= 0:
+        return None
+    budget[0] -= 1
+    small = c14_models.reduced(fam, var.cls)
+    sb = build_model(ctx, small.mm)
+    try:
+        if sb.xsd_text is None or sb.sdk is None or not sb.sdk.ok or any(isinstance(sb.schemas.get(v), str) for v in ("1.0", "1.1")):
+            return None
+        doc = _write(ctx, sb, small, var, expect_valid)
+        if doc is None:
+            return None
+        verdicts = [not validation_errors(sb.schemas[ver], doc) for ver in ("1.0", "1.1")]
+        if (expect_valid and not all(verdicts)) or (not expect_valid and any(verdicts)):
+            return sb.source, doc
+        return None
+    finally:
+        if sb.sdk is not None:
+            try:
+                sb.sdk.close()
+            except BaseException:  # noqa
+                pass
+
+
+def _designed(spec: Any) -> Dict[str, Any]:
+    return {"property": f"{spec.cls}.{spec.prop}", "position": spec.position, "kind": spec.kind, "window": spec.window(), "patterns": list(spec.patterns), "declared_by": spec.sources}
+
+
+def judge_family(ctx: Ctx, fam: Any, b: Built, valid: bool, mutants: bool) -> None:
+    """
+    Valid designed documents must validate (C13); single-violation documents must be rejected (C14), in XSD 1.0 and 1.1.
+
+    Valid documents are first tried three per class (all values at the minimum / between / at the maximum); a rejected
+    one is narrowed to a document in which a single value is moved.
+    """
+    from harness.props import c14_models
+
+    stream = "enumerated/" + fam.name.split("-")[0]
+    ctx.count(b.source, stream="model/" + stream)
+    if b.crash is not None or b.error is not None:
+        ctx.hit("enumerated-model-not-accepted")
+        ctx.note(f"c14_models: family {fam.name} is not accepted: {b.crash or b.error}")
+        return
+    if not _schemas_load(ctx, b) or b.sdk is None or not b.sdk.ok:
+        if b.sdk is None or not b.sdk.ok:
+            ctx.hit("python-sdk-unavailable:enumerated")
+        return
+    concrete = sorted({s.cls for s in fam.specs})
+    seen: set = set()
+
+    def rejected(doc: str) -> Optional[Tuple[str, str]]:
+        for ver in ("1.0", "1.1"):
+            errs = validation_errors(b.schemas[ver], doc)
+            if errs:
+                return ver, errs[0]
+        return None
+
+    if valid:
+        for cname in concrete:
+            for var in c14_models.combined_valid(fam, cname):
+                doc = _write(ctx, b, fam, var, True)
+                if doc is None or doc in seen:
+                    continue
+                seen.add(doc)
+                ctx.count(doc, stream="document/" + stream)
+                ctx.hit("enumerated-valid-document=" + var.kind)
+                bad = rejected(doc)
+                if bad is None:
+                    continue
+                narrowed = False
+                for spec in (s for s in fam.specs if s.cls == cname):
+                    for single in c14_models.single_valid(fam, spec):
+                        if single.kind != var.kind:
+                            continue
+                        sdoc = _write(ctx, b, fam, single, True)
+                        sbad = None if sdoc is None else rejected(sdoc)
+                        if sbad is not None:
+                            narrowed = True
+                            ctx.hit(f"enumerated-valid-rejected={spec.label}/{single.kind}")
+                            sig = "C13:valid-document-rejected:" + _reason_class(sbad[1])
+                            if _reason_class(sbad[1]) == "pattern" and c14_models.escaped_metacharacter_intersected(spec.patterns):
+                                sig += ":escaped-metacharacter-intersected"
+                            small = None if sig.endswith("-intersected") else _reduced_failure(ctx, fam, single, True)
+                            ctx.fail(
+                                {"model": small[0] if small else b.source, "class": cname, "document": small[1] if small else sdoc, "designed": _designed(spec), "value_at": single.kind},
+                                f"the XSD {sbad[0]} schema rejects the SDK-written document of a valid instance ({spec.cls}.{spec.prop} {spec.kind} {spec.window()} {list(spec.patterns)} at its {single.kind}): {sbad[1]}",
+                                sig,
+                            )
+                if not narrowed:
+                    ctx.fail({"model": b.source, "class": cname, "document": doc, "value_at": var.kind},
+                             f"the XSD {bad[0]} schema rejects the SDK-written document of a valid instance (all constrained values at {var.kind}): {bad[1]}",
+                             "C13:valid-document-rejected:" + _reason_class(bad[1]))
+    if mutants:
+        # a mutant only counts against a class whose unmutated document validates (otherwise C13 reports that)
+        base_ok: Dict[str, bool] = {}
+        for cname in concrete:
+            doc = _write(ctx, b, fam, c14_models.Variant(cname, None, True, "min", c14_models.base_plan(fam, cname)), True)
+            base_ok[cname] = doc is not None and rejected(doc) is None
+            if not base_ok[cname]:
+                ctx.hit("enumerated-base-document-not-valid")
+        for spec in fam.specs:
+            for var in c14_models.violations(fam, spec):
+                doc = _write(ctx, b, fam, var, False)
+                if doc is None:
+                    continue
+                kind = re.sub(r"pattern-\d+-of-(\d+)", r"pattern-of-\1", var.kind)
+                ctx.count((doc, var.kind), stream="mutant/" + stream + "/" + kind)
+                accepted = next((ver for ver in ("1.0", "1.1") if not validation_errors(b.schemas[ver], doc)), None)
+                if accepted is None:
+                    # a rejection only says something if the unmutated document is valid
+                    ctx.hit(f"enumerated-mutant-rejected={kind}/{spec.position}" if base_ok[spec.cls] else "enumerated-mutant-rejected-like-its-base-document")
+                    continue
+                ctx.hit("mutant-accepted=" + kind)
+                label = f"{var.kind}@{spec.prop}"
+                sig = "C14:mutant-accepted:" + kind
+                if "pattern" in kind and c14_models.escaped_metacharacter_intersected(spec.patterns):
+                    sig = "C14:mutant-accepted:pattern:escaped-metacharacter-intersected"
+                small = None if sig.endswith("-intersected") else _reduced_failure(ctx, fam, var, False)
+                ctx.fail(
+                    {"model": small[0] if small else b.source, "class": spec.cls, "document": small[1] if small else doc, "mutation": label, "sig": sig, "designed": _designed(spec)},
+                    f"the XSD {accepted} schema accepts the SDK-written document of an instance that breaks one constraint ({label}; {spec.cls}.{spec.prop} {spec.kind} {spec.window()} {list(spec.patterns)}, declared by {spec.sources})",
+                    sig,
+                )
+
+
+def enumerated_families(ctx: Ctx) -> Iterator[Any]:
+    """The enumerated families; the multi-pattern witnesses of corpus/C13 and corpus/C14 lead the ``escapes`` family."""
+    from harness.props import c14_models
+
+    entries = [c for prop in ("C13", "C14") for c in corpus(prop) if "model_patterns" in c]
+    return c14_models.enumerated(ctx.tier, entries)
+
+
+def enumerated_stage(ctx: Ctx, valid: bool, mutants: bool) -> None:
+    for fam in enumerated_families(ctx):
+        judge_family(ctx, fam, built_family(ctx, fam), valid, mutants)
+
+
+def close_families(ctx: Ctx) -> None:
+    for b in ctx.__dict__.pop("_c13_families", {}).values():
+        if b.sdk is not None:
+            try:
+                b.sdk.close()
+            except BaseException:  # noqa
+                pass
 
 
 def _schema_error_class(s: str) -> str:
@@ -1105,6 +1336,8 @@ def correspond(ctx: Ctx) -> None:
 def oracle(ctx: Ctx) -> None:
     if not ctx.driver_ok or ctx.searching:
         pattern_stage(ctx, _patterns(ctx), False)
+    enumerated_stage(ctx, valid=True, mutants=False)
+    close_families(ctx)
     model_stage(ctx, ctx.n(22, 300))
 
 
